@@ -401,10 +401,24 @@ def _r6(ctx):
               "ISASemantics", "default roles single")
     a = ctx.func("ISASemantics.assign_src_dst")
     use = [n for n in ast.walk(a.node) if isinstance(n, ast.If) and U(n.test) == "assign_default"]
-    ok = bool(use) and any("_get_regular_source_operands" in U(x) and "['source']" in U(x) for x in use[0].body) and any(
-        "_get_regular_destination_operands" in U(x) and "['destination']" in U(x) for x in use[0].body) and any(
-        U(x) == "op_dict['src_dst'] = []" for x in use[0].body)
-    ctx.check(ok, "R6", "default roles are applied when no ISA entry matched", a.where(),
+    helpers_ok = bool(use) and any("_get_regular_source_operands" in U(x) and "['source']" in U(x) for x in use[0].body) and any(
+        "_get_regular_destination_operands" in U(x) and "['destination']" in U(x) for x in use[0].body)
+    explicit = bool(use) and any(U(x) == "op_dict['src_dst'] = []" for x in use[0].body)
+    # ... or op_dict starts as a fresh empty-roles dict (literal, or a deep copy of a constant) and src_dst is not written before
+    inits = [x for x in C.assigns_to(a.node, "op_dict") if isinstance(x, ast.Assign) and not C.in_subtree(x, use[0])] if use else []
+    fresh_empty = False
+    if inits and not explicit:
+        v = inits[0].value
+        while isinstance(v, ast.Call) and (pm.call_name(v) or "").split(".")[-1] == "deepcopy" and len(v.args) == 1:
+            v = v.args[0]
+        if isinstance(v, ast.Attribute) and a.cls is not None:
+            for c in ctx.repo.mro(a.cls.name):
+                if v.attr in ctx.repo.classes[c].class_attrs and (pm.call_name(inits[0].value) or "").endswith("deepcopy"):
+                    v = ctx.repo.classes[c].class_attrs[v.attr]
+        fresh_empty = isinstance(v, ast.Dict) and any(isinstance(k, ast.Constant) and k.value == "src_dst" and isinstance(x, ast.List)
+                                                    and not x.elts for k, x in zip(v.keys, v.values))
+    ok = helpers_ok and (explicit or fresh_empty)
+    ctx.judge(ok, helpers_ok is False or explicit or fresh_empty or not inits or isinstance(inits[0].value, ast.Dict), "R6", "default roles are applied when no ISA entry matched", a.where(),
               "assign_default branch does not assign source/destination/src_dst from the default helpers", a.qname,
               "default application")
 
